@@ -74,13 +74,21 @@ def one(rng, replace: bool = False, backend: str = 'dict'):
     # maildir: no backend-read-only mailbox exists (Mailbox.readonly is constantly False): the
     # read-only selection is EXAMINE, the stored state is the directory (flags = info letters,
     # stored recent bit = the file is still in new/)
+    # maildir: a quarter of the runs with the documented --colon option (file names key!2,<flags>)
+    wkw = {'config_kw': {'colon': '!'}} if md and rng.random() < 0.25 else None
     run = SyncRun(backend=backend, init_flags=init, sessions=sessions, controlled=True,
-                  boxes=('Box',) if md else ('Box', 'RO'), claim_recent=rng.random() < 0.4)
+                  boxes=('Box',) if md else ('Box', 'RO'), claim_recent=rng.random() < 0.4,
+                  world_kw=wkw)
     log = []
     try:
         # the backend-read-only mailbox, as pymap's demo data makes one
         if not md:
             run.make_readonly_box('RO', 2)
+        elif rng.random() < 0.5:
+            # files a delivery agent has dropped into new/ (no ":2," suffix, no UID record)
+            # before anybody looks: adopted by the first reset(), part of the baseline
+            for _ in range(rng.choice([1, 2])):
+                run.deliver_external('INBOX')
         target = 'INBOX' if replace or md else rng.choice(['INBOX', 'INBOX', 'RO'])
         for s in sessions[1:]:
             how = 'examine' if replace else rng.choice(['select', 'examine'])
@@ -120,6 +128,10 @@ def one(rng, replace: bool = False, backend: str = 'dict'):
             if not acts or (issued >= ncmds and not run.busy('a')):
                 break
             act, s = rng.choice(acts)
+            if md and rng.random() < 0.06:
+                run.deliver_external('INBOX')
+                log.append(('external', 'INBOX'))
+                continue
             if act == 'issue':
                 if s == 'a':
                     cmd = ro_cmd(rng) if issued < ncmds - 1 or rng.random() < 0.5 else ('close',)
